@@ -90,7 +90,7 @@ var profNames = &Profile{
 }
 
 var profTree = &Profile{
-	Name: "C13-tree", MinOps: 2, MaxOps: 45, NColls: 2, MemPct: 25, Cmps: true, Monotone: 70, Framed: 20, Bulk: 1,
+	Name: "C13-tree", MinOps: 2, MaxOps: 45, NColls: 2, MemPct: 25, Cmps: true, Monotone: 70, Framed: 20, Bulk: 1, BigKeys: true,
 	Kinds: []wk{{OpSet, 44}, {OpSetR, 4}, {OpDel, 16}, {OpFlush, 10}, {OpEvict, 8}, {OpReopen, 6}, {OpVisit, 4}},
 }
 
